@@ -18,6 +18,7 @@ type FullConf struct {
 	Comp      []string `json:"comp"`
 	Buf       int      `json:"buf"`
 	RegMode   int      `json:"reg_mode"` // 0: name@srv.org/<instance>-<n>; 1: colliding-looking addresses (same name, numbered instance)
+	InProcFixed []string `json:"-"`      // reuse these in-process addresses (server restart)
 }
 
 // CliSpec describes one real client.
@@ -29,6 +30,7 @@ type CliSpec struct {
 	IPBuf  int    `json:"ip_buf"`  // in-process transport buffer
 	Auth   string `json:"auth"`    // guest, plain, key, external
 	Name   string `json:"name"`
+	ReadLimit int64 `json:"read_limit,omitempty"` // tcp: client transport read limit
 }
 
 var listenerKinds = []string{"tcp", "tcptls", "ws", "wss", "inproc"}
@@ -57,6 +59,7 @@ type Full struct {
 	regN     int
 	OnEnv    func(ctx context.Context, kind int, env interface{}, s lime.Sender) error
 	Links    []*simnet.Link
+	CliReadLimit int64
 }
 
 // StartFull builds and starts the server. setup may register handlers on the builder; when
@@ -90,6 +93,9 @@ func StartFull(w *World, conf FullConf, basePort int, setup func(b *lime.ServerB
 			f.InProc = append(f.InProc, "")
 		default:
 			a := lime.InProcessAddr(fmt.Sprintf("ip-%d-%d-%d", basePort, i, ProcUniq()))
+			if i < len(conf.InProcFixed) && conf.InProcFixed[i] != "" {
+				a = lime.InProcessAddr(conf.InProcFixed[i])
+			}
 			b.ListenInProcess(a)
 			f.InProc = append(f.InProc, a)
 		}
@@ -176,7 +182,7 @@ func (f *Full) Dial(ctx context.Context, li int, ipBuf int) (lime.Transport, err
 	_, cliTLS := TLSConfigs()
 	switch f.Conf.Listeners[li] {
 	case "tcp", "tcptls":
-		return lime.DialTcp(ctx, tcpAddr(f.BasePort+li), &lime.TCPConfig{TLSConfig: cliTLS})
+		return lime.DialTcp(ctx, tcpAddr(f.BasePort+li), &lime.TCPConfig{TLSConfig: cliTLS, ReadLimit: f.CliReadLimit})
 	case "ws":
 		return lime.DialWebsocket(ctx, fmt.Sprintf("ws://127.0.0.1:%d", f.BasePort+li), nil, nil)
 	case "wss":
